@@ -216,10 +216,10 @@ class Attribute(_BaseAttribute):
                 # provided number of element do not match elemsize
                 raise Attribute.InvalidSizeError(n,self.elemsize)
         
-            datatype = type(data[0])
-            data_attr_type = Attribute.Type(datatype)  
-            if not self._can_be_casted(data_attr_type, self.type):
-                raise Attribute.TypeNotMatchingError(data, datatype, self.type)
+            for x in data: # every component must be castable, not only the first one
+                datatype = type(x)
+                if not self._can_be_casted(Attribute.Type(datatype), self.type):
+                    raise Attribute.TypeNotMatchingError(data, datatype, self.type)
             self._data[key] = Vec(data)
         
         else:
@@ -299,10 +299,10 @@ class ArrayAttribute(_BaseAttribute):
                 # provided number of element do not match elemsize
                 raise Attribute.InvalidSizeError(n,self.elemsize)
         
-            datatype = type(data[0])
-            data_attr_type = Attribute.Type(datatype)  
-            if not self._can_be_casted(data_attr_type, self.type):
-                raise Attribute.TypeNotMatchingError(data, datatype, self.type)
+            for x in data: # every component must be castable, not only the first one
+                datatype = type(x)
+                if not self._can_be_casted(Attribute.Type(datatype), self.type):
+                    raise Attribute.TypeNotMatchingError(data, datatype, self.type)
             self._data[key] = Vec(data)
         
         else:
